@@ -113,6 +113,9 @@ func (o *orC06) onZK(e *ZKEvent) {
 				}
 				r.openBy = e.Inc
 				r.attempts++
+				if m.s.spec.CrashAt != nil && m.s.crashInc == "" && !m.s.crashDone {
+					m.s.crashInc = e.Inc // arm the crash point counter
+				}
 				m.probe("c06_attempt_started")
 				// (3) no attempt starts after the timeout / attempt limit
 				cfg := &m.s.spec.Cfg
@@ -239,5 +242,16 @@ func (o *orC06) onIterLeave(it *iterRec) {
 		if r.limitIters >= 3 {
 			m.violate("C06", "pending_past_limit", "request-still-pending-after-attempt-limit", fmt.Sprintf("%s still pending with run_count=%d >= max %d", r.key, r.runCount, cfg.SwitchoverMaxAttempts))
 		}
+	}
+}
+
+// a dead incarnation is no longer inside an attempt; what it left unfinished is C07's subject
+func (o *orC06) onDaemonGone(inc string) {
+	if o.cur != nil && o.cur.openBy == inc {
+		o.cur.openBy = ""
+	}
+	if o.pendingDelete != nil && o.pendingDelete.deletedBy == inc {
+		o.pendingDelete.terminal = "lost-by-crash"
+		o.pendingDelete = nil
 	}
 }
